@@ -221,11 +221,25 @@ func expOf(d int64, now time.Time) *time.Time {
 	return &t
 }
 
+// emptyKey stands for the key "" in operations (keys are comma-joined in Op.S).
+const emptyKey = "<empty>"
+
+func rk(s string) string {
+	if s == emptyKey {
+		return ""
+	}
+	return s
+}
+
 func split(s string) []string {
 	if s == "" {
 		return nil
 	}
-	return strings.Split(s, ",")
+	out := strings.Split(s, ",")
+	for i := range out {
+		out[i] = rk(out[i])
+	}
+	return out
 }
 
 func (w *world) runTask(ts *taskState, t sim.Task) {
@@ -264,6 +278,11 @@ func (w *world) doOp(ctx context.Context, ts *taskState, op sim.Op, i int) {
 	switch op.K {
 	case "create", "put", "cas", "del", "putmany":
 		mutating = true
+	}
+	if op.K != "getmany" && op.K != "putmany" && op.K != "list" {
+		op.S = rk(op.S)
+	} else if op.K == "list" {
+		op.S = rk(op.S)
 	}
 	if op.V == "=" {
 		// keep the stored value (a lease-refresh style write): only version/expiry move
@@ -322,6 +341,12 @@ func (w *world) doOp(ctx context.Context, ts *taskState, op sim.Op, i int) {
 		}
 		if seq && msg == "" {
 			msg = w.m.applyGet(op.S, &o, t0, t1)
+		}
+		if w.mode == "expwait" && op.F {
+			if lv, ok := w.lastVal[op.S]; ok && (err != nil || valStr(r.Value) != lv) {
+				e.Violate("C06", "live_record_dropped", "[%s backend] the record %q was overwritten (value %q, expiry none or far in the future) around the expiry instant of its predecessor; a later Get returned %s: a record whose expiration lies in the future was dropped", w.be.Kind, op.S, lv, o.Err)
+				return
+			}
 		}
 		if conc {
 			w.record(ts, "get", op.S, "", "", o, call)
